@@ -302,17 +302,9 @@ fn break_string(max_width: usize, trim_end: bool, line_end: &str, input: &[&str]
         return break_at(max_width_index_in_input - 1);
     }
     if let Some(url_index_end) = detect_url(input, max_width_index_in_input) {
-        let index_plus_ws = url_index_end
-            + input[url_index_end..]
-                .iter()
-                .skip(1)
-                .position(|grapheme| not_whitespace_except_line_feed(grapheme))
-                .unwrap_or(0);
-        return if trim_end {
-            SnippetState::LineEnd(input[..=url_index_end].concat(), index_plus_ws + 1)
-        } else {
-            SnippetState::LineEnd(input[..=index_plus_ws].concat(), index_plus_ws + 1)
-        };
+        // Break after the URL like at any other boundary, so that line feeds before and after it
+        // and trailing whitespaces are taken care of.
+        return break_at(url_index_end);
     }
 
     match input[0..max_width_index_in_input]
